@@ -14,7 +14,7 @@ section
 variable {σ : Cand → Cand} (hσ : Function.Injective σ)
 include hσ
 
-theorem contains_ren (l : List Cand) (c : Cand) : (l.map σ).contains (σ c) = l.contains c := by
+theorem appr_contains_ren (l : List Cand) (c : Cand) : (l.map σ).contains (σ c) = l.contains c := by
   have : σ c ∈ l.map σ ↔ c ∈ l := List.mem_map_of_injective hσ
   rw [List.contains_eq_mem, List.contains_eq_mem]
   by_cases h : c ∈ l
@@ -29,7 +29,7 @@ theorem interLen_ren (b e : List Cand) : interLen (b.map σ) (e.map σ) = interL
   congr 1
   apply List.filter_congr
   intro c _
-  exact contains_ren hσ e c
+  exact appr_contains_ren hσ e c
 
 theorem reweighted_ren (p : Profile) (e : List Cand) (c : Cand) :
     reweighted (renAppr σ p) (e.map σ) (σ c) = reweighted p e c := by
@@ -38,7 +38,7 @@ theorem reweighted_ren (p : Profile) (e : List Cand) (c : Cand) :
   congr 1
   apply List.map_congr_left
   intro bw _
-  simp only [Function.comp_def, contains_ren hσ, interLen_ren hσ]
+  simp only [Function.comp_def, appr_contains_ren hσ, interLen_ren hσ]
 
 theorem satH_ren (p : Profile) (a : List Cand) : satH (renAppr σ p) (a.map σ) = satH p a := by
   unfold satH renAppr
@@ -48,7 +48,7 @@ theorem satH_ren (p : Profile) (a : List Cand) : satH (renAppr σ p) (a.map σ) 
   intro bw _
   simp only [Function.comp_def, interLen_ren hσ]
 
-theorem wf_ren {p : Profile} (h : WF p) : WF (renAppr σ p) := by
+theorem appr_wf_ren {p : Profile} (h : WF p) : WF (renAppr σ p) := by
   intro bw hbw
   obtain ⟨x, hx, rfl⟩ := List.mem_map.mp hbw
   exact (h x hx).map hσ
@@ -170,7 +170,7 @@ theorem spavSpecGo_ren (p : Profile) : ∀ (k : Nat) (e : List Cand),
     profile is the renamed outcome: the same refusal, or the elected list renamed, in the same order. -/
 theorem spav_rename (p : Profile) (hwf : WF p) (n : Nat) :
     spav (renAppr σ p) n = (spav p n).map (List.map σ) := by
-  have e₁ : spav (renAppr σ p) n = spavSpecGo (renAppr σ p) n [] := spavGo_eq_spec (wf_ren hσ hwf) n []
+  have e₁ : spav (renAppr σ p) n = spavSpecGo (renAppr σ p) n [] := spavGo_eq_spec (appr_wf_ren hσ hwf) n []
   have e₂ : spav p n = spavSpecGo p n [] := spavGo_eq_spec hwf n []
   rw [e₁, e₂]
   exact spavSpecGo_ren hσ p n []
@@ -185,30 +185,30 @@ theorem pavSpec_some_iff_max (votes : Profile) (n : Nat) (a : List Cand) :
   rcases hm : maximisers votes (allCands votes) n with _ | ⟨x, _ | ⟨y, t⟩⟩ <;> simp
 
 /-- sublists of a duplicate-free ascending list with the same members are equal -/
-theorem sublist_ext {C a b : List Cand} (hC : C.Pairwise (· < ·)) (ha : a.Sublist C) (hb : b.Sublist C)
+theorem appr_sublist_ext {C a b : List Cand} (hC : C.Pairwise (· < ·)) (ha : a.Sublist C) (hb : b.Sublist C)
     (h : ∀ x, x ∈ a ↔ x ∈ b) : a = b :=
-  sorted_ext (hC.sublist ha) (hC.sublist hb) h
+  appr_sorted_ext (hC.sublist ha) (hC.sublist hb) h
 
 section
 variable {σ : Cand → Cand} (hσ : Function.Injective σ)
 include hσ
 
 /-- the committee of the renamed election with the members `σ b` -/
-def push (σ : Cand → Cand) (p : Profile) (b : List Cand) : List Cand :=
+def apprPush (σ : Cand → Cand) (p : Profile) (b : List Cand) : List Cand :=
   (allCands (renAppr σ p)).filter (fun x => (b.map σ).contains x)
 
 /-- the committee of the original election whose members are renamed into `b'` -/
-def pull (σ : Cand → Cand) (p : Profile) (b' : List Cand) : List Cand :=
+def apprPull (σ : Cand → Cand) (p : Profile) (b' : List Cand) : List Cand :=
   (allCands p).filter (fun c => b'.contains (σ c))
 
 omit hσ in
-theorem push_sublist (p : Profile) (b : List Cand) : (push σ p b).Sublist (allCands (renAppr σ p)) := List.filter_sublist
+theorem apprPush_sublist (p : Profile) (b : List Cand) : (apprPush σ p b).Sublist (allCands (renAppr σ p)) := List.filter_sublist
 omit hσ in
-theorem pull_sublist (p : Profile) (b' : List Cand) : (pull σ p b').Sublist (allCands p) := List.filter_sublist
+theorem apprPull_sublist (p : Profile) (b' : List Cand) : (apprPull σ p b').Sublist (allCands p) := List.filter_sublist
 
 omit hσ in
-theorem mem_push {p : Profile} {b : List Cand} (hb : b.Sublist (allCands p)) (x : Cand) : x ∈ push σ p b ↔ x ∈ b.map σ := by
-  unfold push
+theorem mem_apprPush {p : Profile} {b : List Cand} (hb : b.Sublist (allCands p)) (x : Cand) : x ∈ apprPush σ p b ↔ x ∈ b.map σ := by
+  unfold apprPush
   rw [List.mem_filter, mem_allCands_ren]
   simp only [List.contains_eq_mem, decide_eq_true_eq]
   constructor
@@ -219,9 +219,9 @@ theorem mem_push {p : Profile} {b : List Cand} (hb : b.Sublist (allCands p)) (x 
     exact List.mem_map.mpr ⟨c, hb.subset hc, rfl⟩
 
 omit hσ in
-theorem mem_pull_map {p : Profile} {b' : List Cand} (hb : b'.Sublist (allCands (renAppr σ p))) (x : Cand) :
-    x ∈ (pull σ p b').map σ ↔ x ∈ b' := by
-  unfold pull
+theorem mem_apprPull_map {p : Profile} {b' : List Cand} (hb : b'.Sublist (allCands (renAppr σ p))) (x : Cand) :
+    x ∈ (apprPull σ p b').map σ ↔ x ∈ b' := by
+  unfold apprPull
   rw [List.mem_map]
   constructor
   · rintro ⟨c, hc, rfl⟩
@@ -231,77 +231,77 @@ theorem mem_pull_map {p : Profile} {b' : List Cand} (hb : b'.Sublist (allCands (
     obtain ⟨c, hc, rfl⟩ := List.mem_map.mp ((mem_allCands_ren p x).mp (hb.subset h))
     exact ⟨c, List.mem_filter.mpr ⟨hc, by simpa using h⟩, rfl⟩
 
-theorem push_perm {p : Profile} {b : List Cand} (hb : b.Sublist (allCands p)) : (push σ p b).Perm (b.map σ) := by
-  apply (List.perm_ext_iff_of_nodup ((allCands_nodup _).sublist (push_sublist p b))
+theorem apprPush_perm {p : Profile} {b : List Cand} (hb : b.Sublist (allCands p)) : (apprPush σ p b).Perm (b.map σ) := by
+  apply (List.perm_ext_iff_of_nodup ((allCands_nodup _).sublist (apprPush_sublist p b))
     ((hb.nodup (allCands_nodup p)).map hσ)).mpr
-  exact mem_push hb
+  exact mem_apprPush hb
 
-theorem pull_map_perm {p : Profile} {b' : List Cand} (hb : b'.Sublist (allCands (renAppr σ p))) :
-    ((pull σ p b').map σ).Perm b' := by
-  apply (List.perm_ext_iff_of_nodup ((((allCands_nodup p).sublist (pull_sublist p b'))).map hσ)
+theorem apprPull_map_perm {p : Profile} {b' : List Cand} (hb : b'.Sublist (allCands (renAppr σ p))) :
+    ((apprPull σ p b').map σ).Perm b' := by
+  apply (List.perm_ext_iff_of_nodup ((((allCands_nodup p).sublist (apprPull_sublist p b'))).map hσ)
     (hb.nodup (allCands_nodup _))).mpr
-  exact mem_pull_map hb
+  exact mem_apprPull_map hb
 
-theorem satH_push {p : Profile} {b : List Cand} (hb : b.Sublist (allCands p)) :
-    satH (renAppr σ p) (push σ p b) = satH p b := by
-  rw [satH_congr (a' := b.map σ) (mem_push hb), satH_ren hσ]
+theorem satH_apprPush {p : Profile} {b : List Cand} (hb : b.Sublist (allCands p)) :
+    satH (renAppr σ p) (apprPush σ p b) = satH p b := by
+  rw [satH_congr (a' := b.map σ) (mem_apprPush hb), satH_ren hσ]
 
-theorem satH_pull {p : Profile} {b' : List Cand} (hb : b'.Sublist (allCands (renAppr σ p))) :
-    satH p (pull σ p b') = satH (renAppr σ p) b' := by
-  rw [← satH_ren hσ, satH_congr (mem_pull_map hb)]
+theorem satH_apprPull {p : Profile} {b' : List Cand} (hb : b'.Sublist (allCands (renAppr σ p))) :
+    satH p (apprPull σ p b') = satH (renAppr σ p) b' := by
+  rw [← satH_ren hσ, satH_congr (mem_apprPull_map hb)]
 
 /-- the unique maximiser of the original election is renamed into the unique maximiser of the renamed one -/
 theorem pavSpec_ren_some (p : Profile) (n : Nat) (a : List Cand) (h : pavSpec p n = some a) :
-    pavSpec (renAppr σ p) n = some (push σ p a) := by
+    pavSpec (renAppr σ p) n = some (apprPush σ p a) := by
   obtain ⟨h1, h2⟩ := (maximisers_singleton_iff (allCands_nodup p)).mp ((pavSpec_some_iff_max p n a).mp h)
   have ha := mem_combos.mp h1
   apply (pavSpec_some_iff_max _ n _).mpr
   apply (maximisers_singleton_iff (allCands_nodup _)).mpr
-  refine ⟨mem_combos.mpr ⟨push_sublist p a, by rw [(push_perm hσ ha.1).length_eq, List.length_map]; exact ha.2⟩, ?_⟩
+  refine ⟨mem_combos.mpr ⟨apprPush_sublist p a, by rw [(apprPush_perm hσ ha.1).length_eq, List.length_map]; exact ha.2⟩, ?_⟩
   intro b' hb' hne
   have hb := mem_combos.mp hb'
-  have hlen : (pull σ p b').length = n := by
-    have := (pull_map_perm hσ hb.1).length_eq
+  have hlen : (apprPull σ p b').length = n := by
+    have := (apprPull_map_perm hσ hb.1).length_eq
     rw [List.length_map] at this
     rw [this]; exact hb.2
-  have hne' : pull σ p b' ≠ a := by
+  have hne' : apprPull σ p b' ≠ a := by
     intro e
     apply hne
-    apply sublist_ext (sortDedup_sorted _) hb.1 (push_sublist p a)
+    apply appr_sublist_ext (sortDedup_sorted _) hb.1 (apprPush_sublist p a)
     intro x
-    rw [mem_push ha.1, ← e, mem_pull_map hb.1]
-  have := h2 (pull σ p b') (mem_combos.mpr ⟨pull_sublist p b', hlen⟩) hne'
-  rw [satH_pull hσ hb.1] at this
-  rw [satH_push hσ ha.1]
+    rw [mem_apprPush ha.1, ← e, mem_apprPull_map hb.1]
+  have := h2 (apprPull σ p b') (mem_combos.mpr ⟨apprPull_sublist p b', hlen⟩) hne'
+  rw [satH_apprPull hσ hb.1] at this
+  rw [satH_apprPush hσ ha.1]
   exact this
 
 theorem pavSpec_ren_some' (p : Profile) (n : Nat) (a' : List Cand) (h : pavSpec (renAppr σ p) n = some a') :
-    pavSpec p n = some (pull σ p a') := by
+    pavSpec p n = some (apprPull σ p a') := by
   obtain ⟨h1, h2⟩ := (maximisers_singleton_iff (allCands_nodup _)).mp ((pavSpec_some_iff_max _ n a').mp h)
   have ha := mem_combos.mp h1
   apply (pavSpec_some_iff_max _ n _).mpr
   apply (maximisers_singleton_iff (allCands_nodup _)).mpr
-  have hlen : (pull σ p a').length = n := by
-    have := (pull_map_perm hσ ha.1).length_eq
+  have hlen : (apprPull σ p a').length = n := by
+    have := (apprPull_map_perm hσ ha.1).length_eq
     rw [List.length_map] at this
     rw [this]; exact ha.2
-  refine ⟨mem_combos.mpr ⟨pull_sublist p a', hlen⟩, ?_⟩
+  refine ⟨mem_combos.mpr ⟨apprPull_sublist p a', hlen⟩, ?_⟩
   intro b hb' hne
   have hb := mem_combos.mp hb'
-  have hne' : push σ p b ≠ a' := by
+  have hne' : apprPush σ p b ≠ a' := by
     intro e
     apply hne
-    apply sublist_ext (sortDedup_sorted _) hb.1 (pull_sublist p a')
+    apply appr_sublist_ext (sortDedup_sorted _) hb.1 (apprPull_sublist p a')
     intro x
-    rw [← List.mem_map_of_injective hσ (l := b), ← mem_push hb.1, e, ← mem_pull_map ha.1,
+    rw [← List.mem_map_of_injective hσ (l := b), ← mem_apprPush hb.1, e, ← mem_apprPull_map ha.1,
       List.mem_map_of_injective hσ]
-  have := h2 (push σ p b)
-    (mem_combos.mpr ⟨push_sublist p b, by rw [(push_perm hσ hb.1).length_eq, List.length_map]; exact hb.2⟩) hne'
-  rw [satH_push hσ hb.1] at this
-  rw [satH_pull hσ ha.1]
+  have := h2 (apprPush σ p b)
+    (mem_combos.mpr ⟨apprPush_sublist p b, by rw [(apprPush_perm hσ hb.1).length_eq, List.length_map]; exact hb.2⟩) hne'
+  rw [satH_apprPush hσ hb.1] at this
+  rw [satH_apprPull hσ ha.1]
   exact this
 
-theorem pavSpec_ren (p : Profile) (n : Nat) : pavSpec (renAppr σ p) n = (pavSpec p n).map (push σ p) := by
+theorem pavSpec_ren (p : Profile) (n : Nat) : pavSpec (renAppr σ p) n = (pavSpec p n).map (apprPush σ p) := by
   cases h : pavSpec p n with
   | some a => rw [pavSpec_ren_some hσ p n a h]; rfl
   | none =>
@@ -311,14 +311,14 @@ theorem pavSpec_ren (p : Profile) (n : Nat) : pavSpec (renAppr σ p) n = (pavSpe
 
 /-- the reported order of the renamed committee: the renamed order up to the order among equal sort keys -/
 theorem pavOrder_ren (p : Profile) {a : List Cand} (ha : a.Sublist (allCands p)) :
-    SlotsEquiv (pavOrder (renAppr σ p) (push σ p a)) ((pavOrder p a).map (renSlot σ)) := by
-  have hperm := push_perm hσ ha
+    SlotsEquiv (pavOrder (renAppr σ p) (apprPush σ p a)) ((pavOrder p a).map (renSlot σ)) := by
+  have hperm := apprPush_perm hσ ha
   have hnd : a.Nodup := ha.nodup (allCands_nodup p)
   unfold pavOrder
   rw [← getNBest_rename, hperm.length_eq, List.length_map]
   apply getNBest_perm
   have e : renVotes σ (a.map (fun c => (c, -(satH p (a.filter (· != c)))))) =
-      (a.map σ).map (fun c' => (c', -(satH (renAppr σ p) ((push σ p a).filter (· != c'))))) := by
+      (a.map σ).map (fun c' => (c', -(satH (renAppr σ p) ((apprPush σ p a).filter (· != c'))))) := by
     unfold renVotes
     rw [List.map_map, List.map_map]
     apply List.map_congr_left
@@ -328,7 +328,7 @@ theorem pavOrder_ren (p : Profile) {a : List Cand} (ha : a.Sublist (allCands p))
     rw [← satH_ren hσ]
     apply satH_congr
     intro x
-    simp only [List.mem_map, List.mem_filter, mem_push ha, bne_iff_ne, ne_eq]
+    simp only [List.mem_map, List.mem_filter, mem_apprPush ha, bne_iff_ne, ne_eq]
     constructor
     · rintro ⟨d, ⟨hd, hne⟩, rfl⟩
       exact ⟨⟨d, hd, rfl⟩, fun h => hne (hσ h)⟩
@@ -342,7 +342,7 @@ theorem pavOrder_ren (p : Profile) {a : List Cand} (ha : a.Sublist (allCands p))
 theorem pav_rename (p : Profile) (hwf : WF p) (n : Nat) :
     ExceptEquiv (fun r' r => SlotsEquiv r' (r.map (renSlot σ))) (pav (renAppr σ p) n) (pav p n) := by
   unfold pav
-  rw [pavStep_eq_spec freshCoefs freshCoefs_ok _ (wf_ren hσ hwf) n, pavStep_eq_spec freshCoefs freshCoefs_ok p hwf n,
+  rw [pavStep_eq_spec freshCoefs freshCoefs_ok _ (appr_wf_ren hσ hwf) n, pavStep_eq_spec freshCoefs freshCoefs_ok p hwf n,
     pavSpec_ren hσ]
   cases h : pavSpec p n with
   | none => exact rfl
